@@ -474,9 +474,8 @@ def h_command(eng, case):
                       sig='uri')
         else:
             eng.check(g is not None and g == v, 'command-carries-parameters', {'field': k}, sig=k)
-    for k in vals:
-        if not k.startswith('#'):
-            eng.check(k in kwargs, 'command-carries-parameters', {'extra': k}, sig='parameter-not-given:' + k)
+    # (parameters the caller did not give are not forbidden by the statement: observed, not checked)
+    eng.observe('extra', sorted(k for k in vals if not k.startswith('#') and k not in kwargs))
     eng.observe('cp', cp)
     eng.reach('end')
 
